@@ -358,7 +358,9 @@ def run(ctx, col: Collector):
             uncond = any(not g for g in sets) or any(len(g) == 1 and frozenset({_neg(next(iter(g)))}) in sets for g in sets)
             col.check(uncond, 'C03-index', f'create_components:{kw}', f'{kw} is unconditional',
                       f'`{kw}` is {"missing from" if not hits else "conditional in"} the index statement', node=cc.node, file=cc.file)
-        ss = sinks_of(cc)
+        from ..inline import inline_fragments
+        from ..strctx import ANCHOR_HELPERS
+        ss = sinks_of(inline_fragments(idx, cc, keep=ANCHOR_HELPERS))       # small quoting helpers read in place
         nm = [s for s in ss if s.source == ('attr', f'{m}.name')]
         col.check(len(nm) == 1 and nm[0].quote == '"' and (f'{m}.name', True) in nm[0].guards, 'C03-index', 'create_components:name', 'the index name is written quoted when set',
                   'the index name is not written as "<name>" under `if model.name`', node=cc.node, file=cc.file)
@@ -411,18 +413,8 @@ def run(ctx, col: Collector):
         col.floor('C03-qualify', 'table/enum identifier sinks', n, 6)
         # the helper itself: schema elided only for the default schema, both parts quoted
         gf = idx.func(f'{SQLD}.utils', 'get_full_name_for_sql')
-        m = [a.arg for a in gf.node.args.args][0]
-        ifs = [x for x in walk_no_nested(gf.node) if isinstance(x, ast.If)]
-        okh = False
-        if len(ifs) == 1:
-            t = term(ifs[0].test, True)
-            schema_const = t[0] == 'eq' and f'{m}.schema' in t[1:]
-            body_s = [s for s in sinks_of(gf) if (norm(ifs[0].test), True) in s.guards]
-            else_s = [s for s in sinks_of(gf) if (norm(ifs[0].test), False) in s.guards]
-            okh = schema_const and [s.source[1] for s in body_s] == [f'{m}.name'] and sorted(s.source[1] for s in else_s) == sorted([f'{m}.schema', f'{m}.name']) \
-                and all(s.quote == '"' for s in body_s + else_s)
-        col.check(okh, 'C03-qualify', 'get_full_name_for_sql:shape', 'the helper writes "name" for the default schema and "schema"."name" otherwise',
-                  'get_full_name_for_sql does not elide the schema exactly for the default schema (or does not quote both parts)', node=gf.node, file=gf.file)
+        from .common import qualified_name_obligation
+        qualified_name_obligation(ctx, col, 'C03-qualify', 'get_full_name_for_sql:shape', gf)
     guarded(col, 'C03-qualify', 'qualification', qualify)
 
     # ---------------------------------------------------------------- C03-enum / C03-db
